@@ -149,6 +149,7 @@ type flow struct {
 	epoch      uint64
 	ece        bool
 	otherProto byte // != 0: neither TCP nor UDP
+	clean      bool // no per-packet perturbations: long uninterrupted chains (segment-count / size boundaries)
 }
 
 type pktSpec struct {
@@ -396,12 +397,21 @@ func genBatch(r *hlib.Rand, big bool, ctr map[uint64]uint64) []staged {
 		remaining[i] = hlib.Pick(r, 1, 2, 3, 4, 5, 6, 8, 10, 12, 20)
 		if r.Chance(1, 25) {
 			remaining[i] = hlib.Pick(r, 63, 64, 65, 66, 70, 130)
+			flows[i].clean = r.Chance(3, 4)
+			flows[i].otherProto = 0
+			if flows[i].idMode == 2 {
+				flows[i].idMode = 0
+			}
+		}
+		if r.Chance(1, 10) {
+			flows[i].clean = true
 		}
 		if big {
 			remaining[i] = hlib.Pick(r, 2, 8, 44, 45, 46, 47, 48, 66)
 			if flows[i].mss >= 4000 {
 				remaining[i] = hlib.Pick(r, 2, 7, 8, 16, 17)
 			}
+			flows[i].clean = r.Chance(1, 2)
 		}
 		if r.Chance(1, 6) { // a second flow object on the same 5-tuple (e.g. other direction / other epoch / other family)
 			if i > 0 {
@@ -438,6 +448,12 @@ func genBatch(r *hlib.Rand, big bool, ctr map[uint64]uint64) []staged {
 			ps := pktSpec{f: f, payLen: f.mss, flags: 0x10, opts: f.opts}
 			if f.ece {
 				ps.flags |= 0x40
+			}
+			if f.clean {
+				p := build(r, ps)
+				ctr[f.epoch]++
+				out = append(out, staged{pkt: p, epoch: f.epoch, counter: ctr[f.epoch]})
+				continue
 			}
 			// payload size variations
 			switch {
